@@ -16,6 +16,10 @@ fn lower_tokens(b: &[u8]) -> BTreeSet<String> {
 }
 
 pub fn check(b: &[u8], st: &mut Stats, mode: Count) {
+    netted(st, || bytes_case(b), b.len(), |st| check_inner(b, st, mode));
+}
+
+fn check_inner(b: &[u8], st: &mut Stats, mode: Count) {
     st.eval();
     if let Err(e) = model::self_check(b) {
         st.oracle_error(e);
